@@ -101,7 +101,7 @@ Section Query.
   Lemma step_AllReg s o : Inv s -> adm s o = true -> is_clear o = false ->
     AllReg (live s) (g s) -> AllReg (live (fst (step s o))) (g (fst (step s o))).
   Proof.
-    intros HI Ha Hc HA. destruct HI as [A B C D]. destruct o as [c p i|x| |T|T|k|a f b ia ib|]; simpl in *; try discriminate.
+    intros HI Ha Hc HA. destruct HI as [A B C D]. destruct o as [c p i|x| |T|T|T|k|a f b ia ib|]; simpl in *; try discriminate.
     - intros y Hy. apply in_app_iff in Hy. destruct Hy as [Hy|[<-|[]]].
       + destruct (HA _ Hy) as [w [Hw E]]. exists w. unfold add_node; simpl. rewrite in_app_iff. auto.
       + exists (W (next s) c p i). unfold add_node; simpl. rewrite in_app_iff. simpl. auto.
@@ -109,7 +109,8 @@ Section Query.
     - now apply AllReg_sweep.
     - now apply AllReg_sweep.
     - now apply AllReg_sweep.
-    - destruct (nth_error (vars s) k); simpl; auto. now apply AllReg_sweep.
+    - exact HA.
+    - destruct (nth_error (vars s) k) as [[T [| |l]]|]; simpl; auto; now apply AllReg_sweep.
     - destruct (relate_spec (live s) (g s) a f b ia ib A B Ha) as [r' [nw [E [Hr' [_ Hm]]]]].
       rewrite E. simpl. intros y Hy. destruct (HA _ Hy) as [w [Hw Ew]]. exists w. split; auto.
   Qed.
@@ -146,8 +147,27 @@ Section Query.
       + apply sweep_inv, HI. + apply HI. + apply sweep_swept. + apply AllReg_sweep; auto. apply HI.
   Qed.
 
+  (* a variable declared earlier (let(T, None) called, query not evaluated) and evaluated only now: its range is decided
+     now -- whatever was created, dropped, swept or related between the declaration and this first evaluation *)
+  Theorem eval_correct h k T :
+    adm_run init h = true -> no_clear h = true -> desc_b children fuel T T = false ->
+    nth_error (vars (fst (run init h))) k = Some (T, VPending) ->
+    exists l, snd (step (fst (run init h)) (EvalV k)) = OInst l /\
+              Permutation l (map Some (spec_query children fuel (live (fst (run init h))) T)).
+  Proof.
+    intros Ha Hc Hac Hk.
+    assert (HI := reach_Inv children fuel h Ha).
+    assert (HA : AllReg (live (fst (run init h))) (g (fst (run init h)))).
+    { apply run_AllReg; auto; [exact (Inv_init children fuel)|intros x Hx; destruct Hx]. }
+    set (s := fst (run init h)) in *.
+    exists (instances (live s) (sweep (live s) (g s)) T). split.
+    - simpl. rewrite Hk. reflexivity.
+    - apply instances_perm; auto.
+      + apply sweep_inv, HI. + apply HI. + apply sweep_swept. + apply AllReg_sweep; auto. apply HI.
+  Qed.
+
   (* ... and as long as no EQL query has cached a domain, the existing instances are exactly the referenced ones *)
-  Definition is_eql (o : op) : bool := match o with QueryE _ => true | _ => false end.
+  Definition is_eql (o : op) : bool := match o with QueryE _ | DeclV _ => true | _ => false end.
   Definition no_eql (h : list op) : bool := forallb (fun o => negb (is_eql o)) h.
 
   Lemma map_filter_id x (l : list orec) :
@@ -159,11 +179,12 @@ Section Query.
   Lemma step_user s o : is_eql o = false -> vars s = [] -> map o_id (live s) = user s ->
     vars (fst (step s o)) = [] /\ map o_id (live (fst (step s o))) = user (fst (step s o)).
   Proof.
-    intros Hq Hv Hu. destruct o as [c p i|x| |T|T|k|a f b ia ib|]; simpl in *; try discriminate; auto.
+    intros Hq Hv Hu. destruct o as [c p i|x| |T|T|T|k|a f b ia ib|]; simpl in *; try discriminate; auto.
     - rewrite map_app, Hu. auto.
     - rewrite Hv. simpl. split; auto. rewrite <- Hu. apply map_filter_id.
     - rewrite Hv. destruct k; simpl; auto.
     - destruct (relate _ _ _ _ _ _ _) as [r [nw|]]; simpl; auto.
+    - rewrite Hv. simpl. auto.
   Qed.
 
   Lemma run_user : forall h s, no_eql h = true -> vars s = [] -> map o_id (live s) = user s ->
